@@ -55,9 +55,3 @@ pub open spec fn ppe_items(t: Seq<v1::Monomial>, st: Map<u64, F64>) -> Seq<(Seq<
 pub open spec fn ppe_map(p: v1::Polynomial, st: Map<u64, F64>) -> Map<Seq<u64>, real> { racc(ppe_items(p.terms@, st), p.terms.len() as int, Map::empty()) }
 // the documented dropping, made explicit: whatever the specified merge loses (entries with |sum| <= EPSILON, monomials with |coefficient| <= EPSILON)
 pub open spec fn poly_pe_rem(p: v1::Polynomial, st: Map<u64, F64>, m: Map<u64, F64>) -> real { polynomial_val(p, m) - ksum(ppe_map(p, st), pw(m)) }
-// mono_ids of a list
-pub proof fn lemma_mono_ids_mem(ids: Seq<u64>, n: int, k: u64)
-    requires 0 <= n <= ids.len()
-    ensures mono_ids(ids, n).contains(k) <==> exists|j: int| 0 <= j < n && ids[j] == k
-    decreases n
-{ if n > 0 { lemma_mono_ids_mem(ids, n - 1, k); } }
